@@ -110,13 +110,15 @@ func (w *Worker) RunTypeCase(tcase TypeCase, enc bool, property string, thorough
 	orc := &refsem.TypeOracle{M: m, C: m.Ctx}
 	ctx := m.Ctx
 	inst := refsem.NodeInst{M: m, N: root}
-	var pred *smt.Term
+	var pred, predRelaxed *smt.Term
 	if enc {
 		pred = orc.Enc(tm, inst)
 		// C04 explores only encodings: assume the predicate from the start
 		m.AddBase(pred)
 	} else {
 		pred = orc.Dec(tm, inst)
+		relaxed := &refsem.TypeOracle{M: m, C: m.Ctx, Float32AsFloat64: true}
+		predRelaxed = relaxed.Dec(tm, inst)
 		// premise of C09: integers within the range of the 64-bit types (where the target is a 64-bit
 		// field, within that field's range) - encoded by restricting numbers at integer positions below
 		m.AddBase(c09Premise(m, tm, inst))
@@ -184,6 +186,15 @@ func (w *Worker) RunTypeCase(tcase TypeCase, enc bool, property string, thorough
 		if bad.IsFalse() {
 			res.VerdictUnsat++
 			return
+		}
+		// first look for a violation outside the known-finding class (float32 overflow), then inside it
+		if !enc && v == VNil && predRelaxed != pred {
+			m.S.Push()
+			m.S.Assert(ctx.Not(predRelaxed))
+			if m.S.Check() == smt.Sat {
+				bad = ctx.Not(predRelaxed)
+			}
+			m.S.Pop()
 		}
 		m.S.Push()
 		m.S.Assert(bad)
